@@ -106,6 +106,26 @@ static inline void *pw_fresh(size_t sz)
         v->n = n + 1;                                                                         \
     }
 
+/* v.at(i) / v[i] as lvalue expressions (the assertion stands for std::out_of_range / UB) */
+#define VEC_AT(T, v, i) ((v)->d[vec_checked_index((i), (v)->n, 1)])
+#define VEC_INDEX(T, v, i) ((v)->d[vec_checked_index((i), (v)->n, 0)])
+static inline size_t vec_checked_index(size_t i, size_t n, bool at)
+{
+    if (at)
+        MODEL_ASSERT(i < n, "std::vector::at: index out of range (std::out_of_range)");
+    else
+        MODEL_ASSERT(i < n, "std::vector::operator[]: index out of range (undefined behaviour)");
+    return i;
+}
+
+/* *it as an lvalue expression; dereferencing end() is undefined behaviour */
+#define VIT_DEREF(it) ((it).v->d[vit_checked_index((it).i, (it).v->n)])
+static inline size_t vit_checked_index(size_t i, size_t n)
+{
+    MODEL_ASSERT(i < n, "iterator dereferenced at or past end()");
+    return i;
+}
+
 #define VIT_DECL(NAME, CONT)                                                                  \
     typedef struct                                                                            \
     {                                                                                         \
@@ -160,6 +180,11 @@ static inline bool sid_eq(sid a, sid b) { return a == b; }
 #define HEAP_N 65536
 #endif
 #define HEAP_FIELD(T, NAME) T NAME[HEAP_N];
+/* pointwise containers: arbitrary length, NULL buffer (the contract's is_fresh clauses allocate
+ * the buffers that are used) */
+#define HAVOC_CONTAINER_FIELD(F, T)                                                           \
+    for (unsigned k = 1; k < HEAP_N; ++k)                                                     \
+        F[k].n = nondet_size_t()
 extern bool __alive[HEAP_N];
 #define WEAK_LOCK(w) (((w) != 0 && __alive[w]) ? (w) : (ref)0)
 extern size_t __addr[HEAP_N];
